@@ -520,7 +520,14 @@ fn fuzz_campaigns(id: &str, seed: u64, merged: &mut Report, infra: &mut Vec<Stri
         crashes.sort();
         for (k, art) in crashes.iter().enumerate() {
             let Ok(data) = std::fs::read(art) else { continue };
-            if art.file_name().map(|n| n.to_string_lossy().starts_with("oom-") || n.to_string_lossy().starts_with("timeout-") || n.to_string_lossy().starts_with("slow-unit-")).unwrap_or(false) {
+            let name = art.file_name().map(|n| n.to_string_lossy().to_string()).unwrap_or_default();
+            // A slow unit is an input that took more than 10 s (a loaded machine, a sanitizer build) and then
+            // completed with its oracle satisfied; the campaign went on.  It is counted, nothing more.
+            if name.starts_with("slow-unit-") {
+                merged.sub_add(&format!("fuzz:{target}"), "slow_units_reported_by_libfuzzer", 1);
+                continue;
+            }
+            if name.starts_with("oom-") || name.starts_with("timeout-") {
                 infra.push(format!("fuzz {target}: libFuzzer reported {} (resource limit, not a violation)", art.display()));
                 continue;
             }
